@@ -24,7 +24,8 @@ type Mutation { saveHuman(name: String!): Human! saveBoth(name: String!): SavePa
 `
 const vSB = `
 interface Node { id: ID! }
-type Human implements Node { id: ID! phone(cc: Int = 7): String! fax(cc: Int!): String pets: [Animal!]! buddies: [Human!]! }
+type Human implements Node { id: ID! phone(cc: Int = 7): String! fax(cc: Int!): String pets(where: PetIn): [Animal!]! buddies: [Human!]! }
+input PetIn { kinds: [Kind!] name: String }
 type Animal { name: String! owner: Human! kind: Kind }
 enum Kind { CAT DOG }
 type Query { node(id: ID!): Node getAnimals: [Animal!]! phoneCount(first: Int): Int }
@@ -185,6 +186,13 @@ func vReadmeOps() []vOp {
 		{q: `{ me { id: name phone } }`, known: "response-key-id-taken"},
 		{q: `{ me { t: __typename phone } }`},
 		{q: `{ getHumans { ...F friends { ...F } } } fragment F on Human { phone name }`},
+		// client variables inside a list / input object literal of a field that is planned into a dependent step
+		{q: `query($k: Kind!, $n: String) { me { name pets(where: {kinds: [CAT, $k], name: $n}) { name } } }`, vars: func() map[string]interface{} {
+			return map[string]interface{}{"k": "DOG", "n": "rex"}
+		}},
+		// one fragment below root fields of two services, with a field that is merged into an existing step
+		// and selects something of a third service
+		{q: `{ me { ...F } getAnimals { owner { ...F } } } fragment F on Human { phone pets { owner { email } } }`},
 		// an entity met several times on one level, completed with a list of entities that are completed in
 		// turn with an object holding a list of scalars (the fanned-out copies must not share anything)
 		{q: `{ getHumans { buddies { name badge { tags } } } }`},
@@ -357,17 +365,27 @@ func VerifPipeline() {
 const vSC1 = `
 interface Node { id: ID! }
 interface Pet { id: ID! name: String! nick(short: Boolean): String }
-type Cat implements Node & Pet { id: ID! name: String! nick(short: Boolean): String lives: Int }
-type Dog implements Node & Pet { id: ID! name: String! nick(short: Boolean): String bark: String }
+interface Toyed { id: ID! }
+type Cat implements Node & Pet & Toyed { id: ID! name: String! nick(short: Boolean): String lives: Int }
+type Dog implements Node & Pet & Toyed { id: ID! name: String! nick(short: Boolean): String bark: String }
 union Thing = Cat | Dog
-type Query { node(id: ID!): Node pets: [Pet!]! things: [Thing!]! ping: String }
+type Query { node(id: ID!): Node pets: [Pet!]! things: [Thing!]! ping: String toyed: [Toyed!]! }
 type Mutation { ping: String }
 `
 const vSC2 = `
 interface Node { id: ID! }
-type Cat implements Node { id: ID! toy: String }
-type Dog implements Node { id: ID! bone: String }
+interface Toyed { id: ID! toy: String gear: [Gear!]! }
+type Cat implements Node & Toyed { id: ID! toy: String gear: [Gear!]! }
+type Dog implements Node & Toyed { id: ID! bone: String toy: String gear: [Gear!]! }
+type Gear implements Node { id: ID! label: String }
 type Query { node(id: ID!): Node pong: String }
+`
+
+// a third service that extends what the second one hands out
+const vSC3 = `
+interface Node { id: ID! }
+type Gear implements Node { id: ID! weight: Int }
+type Query { node(id: ID!): Node }
 `
 
 // vBothPets: abstract lists hold one member of every type (kernels that need every child step issued)
@@ -397,6 +415,11 @@ func vAbstractWorld() *vWorld {
 	w.ents["d1"] = vEnt{"__typename": "Dog", "id": "d1"}
 	w.roots["Query.pets"] = vLazyPets{"pets"}
 	w.roots["Query.things"] = vLazyPets{"things"}
+	w.roots["Query.toyed"] = vLazyPets{"toyed"}
+	w.ents["g1"] = vEnt{"__typename": "Gear", "id": "g1"}
+	w.ents["c1"]["gear"] = []vRef{{"Gear", "g1"}}
+	w.ents["g2"] = vEnt{"__typename": "Gear", "id": "g2"}
+	w.ents["d1"]["gear"] = []vRef{{"Gear", "g2"}}
 	return w
 }
 
@@ -415,6 +438,10 @@ func vAbstractOps() []vOp {
 	return []vOp{
 		{q: `{ pets { name } }`},
 		{q: `{ pets { ... on Cat { toy } ... on Dog { bone bark } } }`},
+		// an interface whose fields live at another service than the field that returns it: the planner
+		// walks the selection once per possible type
+		{q: `{ toyed { toy gear { label } } }`},
+		{q: `{ toyed { toy gear { label } spare: gear { label weight } } }`},
 		{q: `{ things { ... on Cat { toy name lives } ... on Dog { bone } } }`},
 		{q: `{ ping pong }`},
 		{q: `{ things { ... on Cat { id } } }`},
@@ -452,7 +479,7 @@ func VerifPipelineAbstract() {
 		{name: "default", opts: func() []GatewayOption { return nil }},
 		{name: "hint", opts: func() []GatewayOption { return []GatewayOption{WithGetParentTypeFromIDFunc(vAbstractHint)} }},
 	} {
-		vCheckOne(w, cfg, op, nil, []string{vSC1, vSC2})
+		vCheckOne(w, cfg, op, nil, []string{vSC1, vSC2, vSC3})
 	}
 	verifReach("pipeline completed")
 }
